@@ -22,9 +22,11 @@ SESSIONS = [
     {'name': 'A', 'asn4': True, 'aigp': True, 'families': [[1, 1], [2, 1]], 'addpath': [], 'peer_as': 65001},
     {'name': 'B', 'asn4': False, 'aigp': True, 'families': [[1, 1], [1, 4]], 'addpath': [[1, 1]], 'peer_as': 65002},
     {'name': 'C', 'asn4': True, 'aigp': False, 'families': [[1, 1], [2, 1], [1, 128]], 'addpath': [[2, 1]], 'peer_as': 70000},
+    # (appended: stored cases name sessions by position) FlowSpec for both address families: component types are shared, meanings are not
+    {'name': 'D', 'asn4': True, 'aigp': True, 'families': [[1, 1], [1, 133], [2, 133]], 'addpath': [], 'peer_as': 65001},
 ]
 PARAMETERS = ('asn4', 'aigp', 'families', 'addpath')
-FAMILY_TEXT = {(1, 1): 'ipv4 unicast', (1, 2): 'ipv4 multicast', (1, 4): 'ipv4 nlri-mpls', (1, 128): 'ipv4 mpls-vpn', (2, 1): 'ipv6 unicast', (2, 4): 'ipv6 nlri-mpls', (2, 128): 'ipv6 mpls-vpn'}
+FAMILY_TEXT = {(1, 1): 'ipv4 unicast', (1, 2): 'ipv4 multicast', (1, 4): 'ipv4 nlri-mpls', (1, 128): 'ipv4 mpls-vpn', (2, 1): 'ipv6 unicast', (2, 4): 'ipv6 nlri-mpls', (2, 128): 'ipv6 mpls-vpn', (1, 133): 'ipv4 flow', (2, 133): 'ipv6 flow'}
 
 OPEN, UPDATE, NOTIFICATION, KEEPALIVE, ROUTE_REFRESH = 1, 2, 3, 4, 5
 
